@@ -36,7 +36,13 @@ func main() {
 			genC09(cw, *seed, *tier)
 		case "std":
 			genStd(cw, *seed, *tier)
-		case "c10":
+		case "c01":
+		genC01(cw, *seed, *tier)
+	case "c03":
+		genC03(cw, *seed, *tier)
+	case "c04":
+		genC04(cw, *seed, *tier)
+	case "c10":
 			genC10(cw, *seed, *tier)
 		case "c11":
 			genC11(cw, *seed, *tier)
